@@ -198,7 +198,7 @@ ASSUMPTIONS = [
     "coverage of update geometries is measured (probe table), not asserted",
 ]
 PROBES = ["update_aimed_at_item", "straddling_update_notified", "silent_although_bytes_changed", "duplicate_update", "a_b_a", "watched_twice", "unwatched", "unwatch_all"]
-N_QUICK = 340
+N_QUICK = 1020
 
 
 def jobs(tier: str, base_seed: int):
